@@ -90,7 +90,7 @@ pub struct DependencySnapshot {
         feature = "serde",
         serde(default, skip_serializing_if = "Mapping::is_empty")
     )]
-    pub version_set_unions: Mapping<VersionSetUnionId, HashSet<VersionSetId>>,
+    pub version_set_unions: Mapping<VersionSetUnionId, Vec<VersionSetId>>,
 
     /// All the version sets in the snapshot
     #[cfg_attr(
@@ -236,7 +236,7 @@ impl DependencySnapshot {
                                         }
                                     }
                                     Requirement::Union(version_set_union_id) => {
-                                        let version_sets: HashSet<_> = cache
+                                        let version_sets: Vec<_> = cache
                                             .provider()
                                             .version_sets_in_union(version_set_union_id)
                                             .collect();
